@@ -15,11 +15,19 @@ pub fn serve_main(certs_dir: &str, addr_file: &str) {
 }
 
 pub fn serve_main_at(certs_dir: &str, addr_file: &str, bind: &str) {
+    serve_main_with(certs_dir, addr_file, bind, None)
+}
+
+/// `ca_override`: the path given as `--ca` instead of the certificate set's CA file (it may not exist)
+pub fn serve_main_with(certs_dir: &str, addr_file: &str, bind: &str, ca_override: Option<String>) {
     let certs = Certs { dir: PathBuf::from(certs_dir) };
     let bind = bind.to_string();
     let rt = tokio::runtime::Builder::new_multi_thread().enable_all().build().unwrap();
     rt.block_on(async move {
-        let args = server_args(&certs, &bind, 15000);
+        let mut args = server_args(&certs, &bind, 15000);
+        if let Some(ca) = ca_override {
+            args.cert.ca = PathBuf::from(ca);
+        }
         let server = match Server::try_from(args) {
             Ok(s) => s,
             Err(e) => {
